@@ -53,7 +53,7 @@ def scorer(method, out_dtype=None):
     class Proba(_Base):
         def predict_proba(self, X):
             s = self._s(X)
-            return np.c_[1 - s, s]
+            return cast(np.c_[1 - s, s])
 
     class Decision(_Base):
         def decision_function(self, X):
@@ -125,6 +125,28 @@ def integer_score_cases(rng, count, per_dataset, n_configs, max_groups=4, max_ro
         for ci in rng.choice(n_configs, size=per_dataset, replace=False):
             enc = (("predict", "decision_function")[int(rng.integers(0, 2))], int(rng.integers(0, len(SF_ENC))), CONTAINERS[int(rng.integers(0, len(CONTAINERS)))],
                    int(rng.integers(0, 1 << 30)), False, SCORE_DTYPES[int(rng.integers(0, len(SCORE_DTYPES)))])
+            out.append((rows, int(ci), enc))
+    return out
+
+
+def ulp_score_cases(rng, count, per_dataset, n_configs, max_groups=3, max_rows=12):
+    """data sets whose score levels are NEIGHBOURING float32 numbers (0.5, 0.5 + 1 ulp, ...) handed back by the estimator as float32: the thresholds between
+    two levels exist in float64 only, so a comparison that rounds the threshold to the scores' dtype puts it onto one of the two levels"""
+    lv = [np.float32(0.5)]
+    for _ in range(3):
+        lv.append(np.nextafter(lv[-1], np.float32(1)))
+    lv = [float(x) for x in lv]
+    out = []
+    for _ in range(count):
+        G = int(rng.integers(2, max_groups + 1))
+        n = int(rng.integers(2 * G, max(2 * G, max_rows) + 1))
+        gs = [g for g in range(G) for _ in (0, 1)] + [int(x) for x in rng.integers(0, G, n - 2 * G)]
+        ys = [y for _ in range(G) for y in (0, 1)] + [int(x) for x in rng.integers(0, 2, n - 2 * G)]
+        sc = [lv[int(np.clip(3 * y + int(rng.integers(-2, 3)), 0, 3))] for y in ys]
+        rows = tuple(zip(gs, ys, sc))
+        for ci in rng.choice(n_configs, size=per_dataset, replace=False):
+            enc = (("predict", "decision_function", "predict_proba")[int(rng.integers(0, 3))], int(rng.integers(0, len(SF_ENC))),
+                   CONTAINERS[int(rng.integers(0, len(CONTAINERS)))], int(rng.integers(0, 1 << 30)), False, "float32")
             out.append((rows, int(ci), enc))
     return out
 
